@@ -162,7 +162,7 @@ def life_op(rec, server, r, loop):
     import json
     is_async = server.is_asyncio_based()
     op = r.choice(['shutdown', 'disconnect-all', 'send-unknown', 'on',
-                   'open', 'open'])
+                   'open', 'open', 'open-rejected'])
     rec.count('life_op_' + op)
 
     def run(x):
@@ -177,6 +177,14 @@ def life_op(rec, server, r, loop):
     elif op == 'on':
         server.on('message', lambda sid, data: None)
     else:
+        seen_by_handler = []
+        if op == 'open-rejected':
+            # the application turns the connection down: the id was issued
+            # (the handler saw it) and counts like any other
+            def reject(sid, environ):
+                seen_by_handler.append(sid)
+                return False
+            server.on('connect', reject)
         env = {'REQUEST_METHOD': 'GET', 'PATH_INFO': '/engine.io/',
                'QUERY_STRING': 'transport=polling&EIO=4',
                'HTTP_HOST': 'srv.test', 'wsgi.url_scheme': 'http'}
@@ -193,6 +201,10 @@ def life_op(rec, server, r, loop):
             body = b''.join(out)
         if isinstance(body, bytes):
             body = body.decode('utf-8')
+        if op == 'open-rejected':
+            server.handlers.pop('connect', None)
+            rec.count('open_sid_checked')
+            return seen_by_handler[0] if seen_by_handler else '?'
         sid = json.loads(body.split('\x1e')[0][1:])['sid']
         rec.count('open_sid_checked')
         return sid
